@@ -29,7 +29,7 @@
    implementation. *)
 From Coq Require Import List ZArith Bool Arith Lia.
 Import ListNotations.
-From QV Require Import Model.C01 Proofs.C01 Proofs.C01_pred Proofs.C01_add Proofs.C01_dia Proofs.C01_reshape Proofs.C01_kron.
+From QV Require Import Model.C01 Proofs.C01 Proofs.C01_pred Proofs.C01_add Proofs.C01_dia Proofs.C01_reshape Proofs.C01_kron Proofs.C01_matmul.
 
 Section Props.
 Variable C : Type.
@@ -426,6 +426,102 @@ Example C01_nonvacuous_kron :
     (2, 4, [0; 2; 6], [3; 1; 3; 2; 1; 0],
      [(6, 0); (0, 3); (2, 2); (10, 0); (-1, 1); (0, 5)]%Z).
 Proof. vm_compute. reflexivity. Qed.
+
+(* ------------------------------------------------------------- matmul *)
+(* C is a commutative additive monoid with a multiplication that has 0 as an
+   absorbing element (plus distributivity and associativity of the product
+   for the dense-output kernel); is0 decides 0; tidy 0 = 0. *)
+Section Matmul.
+Variable C : Type.
+Variables (c0 : C) (cadd cmul : C -> C -> C).
+Variable is0 : C -> bool.
+Variable tidy : C -> C.
+Hypothesis Hadd0r : forall x, cadd x c0 = x.
+Hypothesis Hadd0l : forall x, cadd c0 x = x.
+Hypothesis Haddc : forall x y, cadd x y = cadd y x.
+Hypothesis Hadda : forall x y z, cadd x (cadd y z) = cadd (cadd x y) z.
+Hypothesis Hmul0r : forall x, cmul x c0 = c0.
+Hypothesis Hmul0l : forall x, cmul c0 x = c0.
+Hypothesis His0 : forall x, is0 x = true <-> x = c0.
+Hypothesis Htidy0 : tidy c0 = c0.
+Hypothesis Hdistr : forall x y z, cmul x (cadd y z) = cadd (cmul x y) (cmul x z).
+Hypothesis Hmula : forall x y z, cmul x (cmul y z) = cmul (cmul x y) z.
+
+(* matmul_csr: the scatter / linked-list walk yields, entry by entry,
+   scale * tidy(sum_j left[i,j] * right[j,k]) - for unsorted rows and explicit
+   zeros in either operand *)
+Theorem C01_matmul_csr : forall (l r out : csr C) scale i k,
+  wf_csr C l -> wf_csr C r ->
+  matmul_csr C cadd cmul is0 tidy l r scale = Some out ->
+  i < s_nr C l -> k < s_nc C r ->
+  den_csr C c0 out i k =
+  cmul scale (tidy (diag_sum C c0 cadd
+     (fun j => cmul (den_csr C c0 l i j) (den_csr C c0 r j k)) 0 (s_nc C l))).
+Proof.
+  exact (matmul_csr_den C c0 cadd cmul is0 tidy Hadd0r Hadd0l Haddc Hadda Hmul0r Hmul0l His0 Htidy0).
+Qed.
+
+Theorem C01_matmul_csr_shape_guard : forall (l r : csr C) scale,
+  s_nc C l <> s_nr C r -> matmul_csr C cadd cmul is0 tidy l r scale = None.
+Proof. exact (matmul_csr_guard C cadd cmul is0 tidy). Qed.
+
+(* matmul_csr_dense_dense, Fortran path (row dot products) and C path
+   (entry-wise accumulation), with or without a caller-supplied `out` of
+   either memory order: out + scale * (left @ right) *)
+Theorem C01_matmul_csr_dense : forall (l : csr C) (r : dense C) scale out res i k,
+  wf_csr C l ->
+  matmul_csr_dense C c0 cadd cmul l r scale out = Some res ->
+  i < s_nr C l -> k < d_nc C r ->
+  den_dense C c0 res i k =
+  cadd (match out with Some o => den_dense C c0 o i k | None => c0 end)
+       (cmul scale (diag_sum C c0 cadd
+          (fun j => cmul (den_csr C c0 l i j) (den_dense C c0 r j k)) 0 (s_nc C l))).
+Proof.
+  exact (matmul_csr_dense_den C c0 cadd cmul Hadd0r Hadd0l Haddc Hadda Hmul0r Hmul0l Hdistr Hmula).
+Qed.
+
+Theorem C01_matmul_csr_dense_shape_guard : forall (l : csr C) (r : dense C) scale out,
+  s_nc C l <> d_nr C r -> matmul_csr_dense C c0 cadd cmul l r scale out = None.
+Proof. exact (matmul_csr_dense_guard C c0 cadd cmul). Qed.
+
+(* the product through the CSR x CSR kernel and through the CSR x Dense kernel
+   (right operand converted) is the same matrix, the tidy-up of the sparse
+   path aside *)
+Theorem C01_matmul_formats_agree : forall (l r out : csr C) (res : dense C) scale f i k,
+  wf_csr C l -> wf_csr C r ->
+  matmul_csr C cadd cmul is0 tidy l r scale = Some out ->
+  matmul_csr_dense C c0 cadd cmul l (dense_from_csr C c0 f r) scale None = Some res ->
+  i < s_nr C l -> k < s_nc C r ->
+  exists v, den_dense C c0 res i k = cmul scale v /\ den_csr C c0 out i k = cmul scale (tidy v).
+Proof.
+  intros l r out res scale f i k Wl Wr H1 H2 Hi Hk.
+  exists (diag_sum C c0 cadd (fun j => cmul (den_csr C c0 l i j) (den_csr C c0 r j k)) 0 (s_nc C l)).
+  split.
+  - rewrite (C01_matmul_csr_dense l _ scale None res i k Wl H2 Hi Hk). rewrite Hadd0l. f_equal.
+    apply (diag_sum_ext C c0 cadd). intros j _. rewrite dense_from_csr_den by exact Wr. reflexivity.
+  - exact (C01_matmul_csr l r out scale i k Wl Wr H1 Hi Hk).
+Qed.
+End Matmul.
+Print Assumptions C01_matmul_csr.
+Print Assumptions C01_matmul_csr_shape_guard.
+Print Assumptions C01_matmul_csr_dense.
+Print Assumptions C01_matmul_csr_dense_shape_guard.
+Print Assumptions C01_matmul_formats_agree.
+
+(* non-vacuity (the Gaussian integers satisfy the laws: C01_nonvacuous_add_csr):
+   a product with unsorted rows, a cancellation (dropped entry) and the
+   reverse first-touch column order of the kernel *)
+Example C01_nonvacuous_matmul :
+  (forall x y z, gmul x (gadd y z) = gadd (gmul x y) (gmul x z)) /\
+  (forall x y z, gmul x (gmul y z) = gmul (gmul x y) z) /\
+  let l := G_csr_of_raw 2 3 [0; 2; 3] [2; 0; 1] [(1, 0); (1, 0); (0, 1)]%Z in
+  let r := G_csr_of_raw 3 2 [0; 2; 3; 5] [1; 0; 0; 0; 1] [(2, 0); (3, 0); (1, 1); (-3, 0); (4, 0)]%Z in
+  vO vC (G_matmul_csr l r (2, 0)%Z) = Some (2, 2, [0; 1; 2], [1; 0], [(12, 0); (-2, 2)]%Z).
+Proof.
+  split; [intros [a b] [c d] [e f]; unfold gmul, gadd; cbn [fst snd]; f_equal; lia|].
+  split; [intros [a b] [c d] [e f]; unfold gmul; cbn [fst snd]; f_equal; lia|].
+  vm_compute. reflexivity.
+Qed.
 
 (* ----------------------------------------------------------- dispatcher *)
 (* V = data-layer objects, ty = their concrete type, den = the matrix they
